@@ -6,7 +6,7 @@ from vlib import print_common as pc
 from vlib.props.C08 import model_compare
 from vlib.coord_common import first_diff
 
-MODS = ['S4V.Props.PrintSpec']
+MODS = ['S4V.Props.PrintSpec', 'S4V.Props.FactsPrint']
 LEVEL_NOTE = ("Proved over a byte-level model of the 8+8+4+4 print variants of printers.rs (as sequences of buffer_write_or_return!/setcolor_or_return! calls, "
               "interpreted with the printer's color_spec_last) and of the coordinator's separator / final-newline writes: without escapes every printed line is "
               "file field ++ datetime field ++ line for text logs, event-log records and journal entries under both colour settings (C13_field_order), no options => exactly "
